@@ -11,8 +11,9 @@ Definition Tk (r : N) : op := Tick (N.to_nat r).
 Definition Fl (r : N) : op := Flush (N.to_nat r).
 Definition Sd (r : N) : op := Shutdown (N.to_nat r).
 Definition Er (b : bool) : op := SetErr b.
-Definition Rm (d : bool) : rcfg := {| rk := RManual; r_delta := d |}.
-Definition Rp (d : bool) : rcfg := {| rk := RPeriodic; r_delta := d |}.
+Definition Rm (d cb : bool) : rcfg := {| rk := RManual; r_delta := d; r_cb := cb |}.
+Definition Rp (d cb : bool) : rcfg := {| rk := RPeriodic; r_delta := d; r_cb := cb |}.
+Definition Cc (r : N) : op := CollectC (N.to_nat r).
 Definition P (k v : N) : skey * svec := (k, [zz v]).
 Definition T (k v : N) : skey * Z := (k, zz v).
 
